@@ -441,6 +441,8 @@ class Interp:
             if isinstance(o, list):
                 return list(o)
             return list(st.dict_of(it).keys())
+        if isinstance(it, R) and "elems" in it.fields and isinstance(it.fields["elems"], K) and isinstance(it.fields["elems"].v, tuple):
+            return list(it.fields["elems"].v)  # an abstract container whose elements the scenario spells out
         return None
 
     def make_default(self, factory: str, st: State) -> V:
